@@ -77,7 +77,7 @@ var templates = []template{
 	{"pack-align", `return #string.pack("!16 b Xi16" .. (" "):rep(N), 1)`},
 	{"unpack-x", `return select('#', string.unpack(("x"):rep(N), E:rep(N)))`},
 	{"unpack-c0", `return select('#', string.unpack(("c0"):rep(N), E))`},
-	{"packsize", `return string.packsize(("x"):rep(N)) + string.packsize("c" .. N)`},
+	{"packsize", `return #tostring(string.packsize(("x"):rep(N))) + #tostring(string.packsize("c" .. N))`},
 	{"rep-tonumber", `return #tostring(tonumber(("1"):rep(N) .. E) or 0)`},
 	{"rep-len-cmp", `local s = E:rep(N) return (s == s .. "") and #s or 0`},
 	// patterns that back-track
